@@ -16,7 +16,7 @@ TRUSTED_BASE = [
     'the stamped hook log of every listener is replayed label by label (hook stamp discipline: recv/ctx_done/sub_closed/sent after, before_cancel/before_close/finished before the operation; '
     'a channel hand-off is placed at the earlier of the sender\'s and the receiver\'s stamp; ctx-done and subscription-closed are inserted as late as possible)',
     'the harness: a forwarding Subscriber (records what is offered to / taken by each listener), a scripted reply Publisher and ReplyPublishErrorHandler, a thin Backend wrapper that remembers the reply channel, '
-    'message.ack/nack hook stamps for the command settlement, a watchdog (20 s, cut short when a goroutine dump shows every unfinished listener parked in a channel send)',
+    'message.ack/nack hook stamps for the command settlement, a watchdog (20 s, cut short after 1.5 s when two goroutine dumps show every unfinished listener goroutine blocked - in a channel send or in a select with no ready case)',
     'the cqrs CommandProcessor is used with AckCommandHandlingErrors = false (as the request-reply documentation demands); the Router\'s settlement is C02\'s [handle]',
 ]
 ASSUMPTIONS = [
@@ -26,7 +26,7 @@ ASSUMPTIONS = [
 ]
 
 LABEL = dict(recv='LRecv', recv_closed='LRecvClosed', ctx='LCtx', send='LSend', skip='LSkip', cancel='LCancel', close='LClose', hook='LHook',
-             read='CRead', read_closed='CReadClosed', ecancel='ECancel', esub='ESubClose')
+             read='CRead', read_closed='CReadClosed', ecancel='ECancel', etimeout='ETimeout', esub='ESubClose')
 
 def N(x): return C.coq_N(x)
 def optN(x): return '(Some %s)' % N(x) if x >= 0 else 'None'
@@ -34,7 +34,7 @@ def optN(x): return '(Some %s)' % N(x) if x >= 0 else 'None'
 def reply_term(r):
     k = r['kind']
     if k == 0:
-        return '(ROwn %s %s %s)' % (N(max(r['res'], 0)), ('(Some %s)' % N(r['err'])) if r['err'] else 'None', N(r['nid']))
+        return '(ROwn %s %s %s)' % (N(max(r['res'], 0)), ('(Some %s)' % N(r['err'])) if r['haserr'] else 'None', N(r['nid']))
     if k == 1: return 'RUnmarshal'
     if k == 2: return 'RTimeout'
     if k == 3: return 'RSubClosed'
@@ -55,6 +55,10 @@ def build_schedule(req):
     def emit_read():
         st['reads'] += 1; out.append('read')
     sent_seen = 0; read_seen = 0
+    # the listener's context ends through the caller's (cancel stamp) or, with a configured timeout and no cancel so far, by itself
+    def ctx_end_label(upto_seq):
+        cancelled = any(e[1] == 'c18.caller.cancel' and e[0] <= upto_seq for e in evs)
+        return 'etimeout' if (req.get('_timeout') and not cancelled) else 'ecancel'
     for e in evs:
         p = e[1]; keys = e[2:]
         if p == 'requestreply.listen.recv':
@@ -64,7 +68,7 @@ def build_schedule(req):
             st['recvs'] += 1; out.append('recv')
         elif p in ('requestreply.listen.ctx_done', 'requestreply.listen.send_aborted'):
             if not st['ecancel']:
-                st['ecancel'] = True; out.append('ecancel')
+                st['ecancel'] = True; out.append(ctx_end_label(e[0]))
             out.append('ctx')
         elif p == 'requestreply.listen.sub_closed':
             if not st['esub']:
@@ -101,7 +105,7 @@ def build_schedule(req):
         else:
             problems.append('unknown stamp ' + p)
     if req.get('ctx') and not st['ecancel']:
-        out.append('ecancel')
+        out.append(ctx_end_label(10 ** 12))
     return out, problems
 
 def read_total(evs):
@@ -128,7 +132,7 @@ def listen_case_term(sc, req, fixed=True):
         if any(t is None for t in ts):
             return None, ['a reply that is neither a handler reply, an unmarshal error nor a timeout (kind 9): %s' % (req.get(key),)]
         replies.append(C.coq_list(ts))
-    cfg = '(Cfg %s %s %s)' % (C.coq_bool(fixed), N(req['op']), C.coq_bool(sc['has_hook']))
+    cfg = '(Cfg %s %s %s %s)' % (C.coq_bool(fixed), N(req['op']), C.coq_bool(sc['has_hook']), C.coq_bool(bool(sc['timeout_ms'])))
     dec = C.coq_list(['(%s, %s)' % (N(p), optN(r)) for p, r in (req.get('dec') or [])])
     stream = C.coq_list([notif_term(n) for n in (req.get('stream') or [])])
     obs = '(Obs %s %s %s %d %s %s %d %s)' % (replies[0], replies[1], replies[2], req['consumed'],
@@ -149,18 +153,18 @@ def describe_req(sc, req):
                             waits_for_listener=req['sync'], keeps_reading_after_end=req['drain']),
                 notifications_offered=len(req.get('stream') or []), own_notifications=len(own),
                 replies_read=[kind_name(r) for r in (req.get('got') or [])], left_in_channel=[kind_name(r) for r in (req.get('rest') or [])],
-                channel_closed=req['closed'], hook_calls=req['hooks'], listener_finished=req['done'], listener_parked_in_chan_send=req['parked'],
+                channel_closed=req['closed'], hook_calls=req['hooks'], listener_finished=req['done'], listener_blocked_in_goroutine_dump=req['parked'],
                 schedule=sched, send_error=req.get('send_err'))
 
 def kind_name(r):
-    return {0: 'reply' + ('(err)' if r['err'] else ''), 1: 'unmarshal-error', 2: 'timeout', 3: 'subscriber-closed'}.get(r['kind'], 'unclassifiable')
+    return {0: 'reply' + (('(err)' if r['err'] else '(err with empty text)') if r['haserr'] else ''), 1: 'unmarshal-error', 2: 'timeout', 3: 'subscriber-closed'}.get(r['kind'], 'unclassifiable')
 
 # ---------------------------------------------------------------- deliveries
 
 def delivery_term(sc, d):
     st = d['step']
     cfg = '(PCfg %s %s %s)' % (C.coq_bool(sc['ack_errors']), C.coq_bool(sc['has_modify']), C.coq_bool(sc['has_errh']))
-    inp = '(PIn true %s %s %s %s true true %s %s)' % (N(d['op']), N(max(d['res'], 0)), ('(Some %s)' % N(d['err'])) if d['err'] else 'None', N(d['nid']),
+    inp = '(PIn true %s %s %s %s true true %s %s)' % (N(d['op']), N(max(d['res'], 0)), ('(Some %s)' % N(d['err'])) if d['haserr'] else 'None', N(d['nid']),
                                                     C.coq_bool(not st['pubfail']), C.coq_bool(st['swallow']))
     enc = C.coq_list(['(%s, %s)' % (N(max(d['enc'][0], 0)), optN(d['enc'][1]))])
     tr = []; final = 'Unsettled'; bad = []
@@ -197,6 +201,7 @@ def run_once(ctx, res, seed, n, reqs, tag):
         for pr in sc.get('problems') or []:
             res.mismatches.append(dict(kind='harness observed something the scenario does not allow: ' + pr, case=dict(scenario=sc['index'])))
         for req in sc['reqs']:
+            req['_timeout'] = bool(sc['timeout_ms'])
             if not req['op']:
                 res.mismatches.append(dict(kind='request could not be sent: %s' % req.get('send_err'), case=describe_req(sc, req)))
                 continue
@@ -217,6 +222,7 @@ def run_once(ctx, res, seed, n, reqs, tag):
             if 'requestreply.listen.send_aborted' in pts: res.count('overlap:reply send abandoned because the context ended (listener was blocked on a full channel)')
             if 'requestreply.listen.sub_closed' in pts: res.count('overlap:listener saw the closed subscription before ctx.Done')
             if req.get('rest'): res.count('replies_left_unread_in_channel')
+            if sc['timeout_ms'] and req['end'] == 2 and not req['drain'] and len(own) >= len(req.get('got') or []) + 2: res.count('overlap:timeout passed with the caller context alive, caller not reading, >= 2 further replies')
             big = len(req.get('stream') or []) > MAX_STREAM
             if big:
                 res.count('oversized_notification_streams')
@@ -228,7 +234,7 @@ def run_once(ctx, res, seed, n, reqs, tag):
                 res.mismatches.append(dict(kind='stamp mapping: ' + pr, case=describe_req(sc, req)))
             lcases.append((sc, req, term, big))
             if len(req.get('stream') or []) > 1 or len(req.get('got') or []) > 1:
-                res.nontrivial.add(('listen', len(own), foreign > 0, tuple(r['kind'] for r in (req.get('got') or [])), tuple(r['kind'] for r in (req.get('rest') or [])),
+                res.nontrivial.add(('listen', len(own), foreign > 0, tuple((r['kind'], r['haserr'], r['haserr'] and not r['err']) for r in (req.get('got') or [])), tuple(r['kind'] for r in (req.get('rest') or [])),
                                     req['api'], req['end'], req['drain'], sc['has_hook'], bool(sc['timeout_ms'])))
             if len(req.get('deliveries') or []) > 30: res.count('requests_with_more_than_30_deliveries(only the first 30 judged)')
             for d in (req.get('deliveries') or [])[:30]:
@@ -237,9 +243,9 @@ def run_once(ctx, res, seed, n, reqs, tag):
                 for b in bad:
                     res.violations.append(dict(signature='C18/reply-topic', what=b, case=describe_delivery(sc, req, d)))
                 dcases.append((sc, req, d, t))
-                res.count('delivery=%s%s%s' % ('error' if d['step']['err'] else 'ok', ',publish-fails' if d['step']['pubfail'] else '', ',swallowed' if d['step']['pubfail'] and d['step']['swallow'] and sc['has_errh'] else ''))
-                if d['step']['err'] or d['step']['pubfail'] or d['k'] > 0:
-                    res.nontrivial.add(('delivery', sc['ack_errors'], sc['has_errh'], bool(d['step']['err']), d['step']['pubfail'], d['step']['swallow'], min(d['k'], 2), sc['with_result']))
+                res.count('delivery=%s%s%s' % (('error' if d['step']['err'] else 'error with empty text') if d['step']['fail'] else 'ok', ',publish-fails' if d['step']['pubfail'] else '', ',swallowed' if d['step']['pubfail'] and d['step']['swallow'] and sc['has_errh'] else ''))
+                if d['step']['fail'] or d['step']['pubfail'] or d['k'] > 0:
+                    res.nontrivial.add(('delivery', sc['ack_errors'], sc['has_errh'], d['step']['fail'], d['step']['err'] == '', d['step']['pubfail'], d['step']['swallow'], min(d['k'], 2), sc['with_result']))
     for part, chunk in enumerate(C.chunks(lcases, 150)):
         r = C.coq_eval(pid, 'cases_%s_l%d' % (tag, part), HEADER + 'Definition cases : list c18_listen_case := %s.\n' % C.coq_list([c[2] for c in chunk]),
                        [('R_mis', 'c18_listen_mismatches cases'), ('R_vio', 'c18_listen_violations cases')])
@@ -247,9 +253,9 @@ def run_once(ctx, res, seed, n, reqs, tag):
         for i, code in vio.items():
             sc, req, _, big = chunk[i]
             if code & 2 and not code & 1:
-                res.violations.append(dict(signature=SIG_PARKED if (req['parked'] or not req['done']) else 'C18/listener-end-state',
+                res.violations.append(dict(signature=(SIG_PARKED if 'etimeout' not in build_schedule(req)[0] else 'C18/listener-blocked-after-timeout-with-live-caller-context') if (req['parked'] or not req['done']) else 'C18/listener-end-state',
                                            what=('the context of the request ended but its listener never finished: reply channel not closed, OnListenForReplyFinished not run'
-                                                 + (' (goroutine dump: listener parked in a channel send on the full reply channel)' if req['parked'] else '')),
+                                                 + (' (goroutine dump: the listener goroutine is blocked in a channel send / a select with no ready case)' if req['parked'] else '')),
                                            case=describe_req(sc, req)))
             else:
                 res.violations.append(dict(signature='C18/listener-safety', what='listener observation rejected by the acceptor safe_ok (only own replies, in arrival order, with the notification\'s content, '
@@ -304,7 +310,7 @@ def run_glue(ctx, res, data):
         for b in bad:
             res.violations.append(dict(signature='C18/glue', what=b, case=g))
         cases.append((g, t))
-        key = ('glue', g['ack_errors'], g['modify'], g['errh'], g['orig'], g['has_op'], g['marshal_ok'], g['topic_ok'], g['pub_ok'], g['err'])
+        key = ('glue', g['ack_errors'], g['modify'], g['errh'], g['orig'], g['has_op'], g['marshal_ok'], g['topic_ok'], g['pub_ok'], g['err'], g['empty_text'])
         if not (g['orig'] and g['has_op'] and g['marshal_ok'] and g['topic_ok'] and g['pub_ok'] and g['modify'] != 2 and not g['err']):
             res.nontrivial.add(key)
     res.count('handler_branch_matrix_cases', len(cases))
